@@ -4,11 +4,17 @@ use crate::report::Tier;
 pub mod c01;
 pub mod c02;
 pub mod c03;
+pub mod builder_oracles;
+pub mod c05;
+pub mod c06;
 pub mod c07;
+pub mod c09;
+pub mod c10;
 pub mod c11;
 pub mod c14;
 pub mod c15;
 pub mod c17;
+pub mod c18;
 pub mod c20;
 
 pub type BoxedScenario = Box<dyn Fn(&mut Ctx) + Sync>;
@@ -18,6 +24,11 @@ pub fn run(prop: &str, tier: Tier, seed: u64) -> Option<i32> {
         "C01" => c01::run(tier, seed),
         "C02" => c02::run(tier, seed),
         "C03" => c03::run(tier, seed),
+        "C05" => c05::run(tier, seed),
+        "C06" => c06::run(tier, seed),
+        "C09" => c09::run(tier, seed),
+        "C10" => c10::run(tier, seed),
+        "C18" => c18::run(tier, seed),
         "C07" => c07::run(tier, seed),
         "C11" => c11::run(tier, seed),
         "C14" => c14::run(tier, seed),
@@ -33,6 +44,11 @@ pub fn scenario(prop: &str, name: &str, tier: Tier) -> Option<BoxedScenario> {
         "C01" => c01::scenario(name, tier),
         "C02" => c02::scenario(name, tier),
         "C03" => c03::scenario(name, tier),
+        "C05" => c05::scenario(name, tier),
+        "C06" => c06::scenario(name, tier),
+        "C09" => c09::scenario(name, tier),
+        "C10" => c10::scenario(name, tier),
+        "C18" => c18::scenario(name, tier),
         "C07" => c07::scenario(name, tier),
         "C11" => c11::scenario(name, tier),
         "C14" => c14::scenario(name, tier),
